@@ -1,4 +1,5 @@
 import MithrilModel.ImportGood
+import MithrilModel.ImportTx
 /-!
 # C13 — the importer over a whole history (executable model used by the driver)
 
@@ -9,8 +10,11 @@ what the driver needs around them, transliterated from
   point is kept after the scan),
 * `CardanoChainDataImporter::import` (blocks, then `BlockRangeImporter::run` and `run_legacy`),
 * `CardanoTransactionRepository::store_blocks_and_transactions` (one sqlite transaction per batch:
-  `insert or ignore` of the blocks, then of the transactions, whose foreign key to the block is NOT
-  ignored: a shadowed block that carries transactions makes the cursor panic and the batch roll back),
+  `insert or ignore` of the blocks, then of the transaction rows — keyed by the transaction hash
+  alone: a row whose hash is stored is dropped, whatever block it names; the foreign key of a row that
+  IS inserted is not ignored: a shadowed block that carries new transactions makes the cursor panic and
+  the batch roll back),
+* the `on delete cascade` of `cardano_tx` on every deletion of blocks (roll-back, `prune_transaction`),
 * `prune_transaction`,
 and the class letter of each import (the decision procedure of `Good`, with the first violated clause).
 -/
@@ -85,10 +89,12 @@ theorem belowB_iff (S : List Block) (K : Nat) : belowB S K = true ↔ Below S K 
 
 /-! ## the store with the panic of the foreign key -/
 
-/-- the batch insert panics: some block of the batch carries transactions and is not in the block
-table after the `insert or ignore` (it was shadowed on its number or slot by another block) -/
-def panics (ntx : Nat → Nat) (S : List Block) : Option Out → Bool
-  | some (.forwards bs) => bs.any (fun b => ntx b.hash != 0 && !((insertAll S bs).any (fun x => x.hash = b.hash)))
+/-- the batch insert panics: some transaction row that IS inserted (its hash was not stored: the rows
+appended to the table) names a block that is not in the block table after the `insert or ignore` of the
+blocks (the block was shadowed on its number or slot by another block) -/
+def panics (txsOf : Nat → List Nat) (S : List Block) (T : List TxRow) : Option Out → Bool
+  | some (.forwards bs) =>
+    ((insertTxs T (rowsOf txsOf bs)).drop T.length).any (fun r => !((insertAll S bs).any (fun x => x.hash = r.2)))
   | _ => false
 
 def opOf : Out → String
@@ -97,6 +103,7 @@ def opOf : Out → String
 
 structure X (ρ : Type) where
   S : List Block
+  T : List TxRow
   roots : List (Nat × ρ)
   legacy : List (Nat × ρ)
   rest : List (Option Ev)
@@ -106,33 +113,36 @@ structure X (ρ : Type) where
 
 variable {ρ : Type}
 
-/-- the scan loop on blocks and both root tables, with the store-call log and the panic outcome -/
-def runX (ntx : Nat → Nat) (c : Cfg) : Nat → Option Nat → List Block → List (Nat × ρ) → List (Nat × ρ) →
+/-- the scan loop on blocks, transaction rows and both root tables, with the store-call log and the
+panic outcome -/
+def runX (txsOf : Nat → List Nat) (c : Cfg) : Nat → Option Nat → List Block → List TxRow → List (Nat × ρ) → List (Nat × ρ) →
     List (Option Ev) → List String → X ρ
-  | 0, lp, S, roots, legacy, rs, ops => ⟨S, roots, legacy, rs, lp, ops, false⟩
-  | fuel + 1, lp, S, roots, legacy, rs, ops =>
+  | 0, lp, S, T, roots, legacy, rs, ops => ⟨S, T, roots, legacy, rs, lp, ops, false⟩
+  | fuel + 1, lp, S, T, roots, legacy, rs, ops =>
     match poll c lp [] rs with
-    | (none, rest, lp') => ⟨S, roots, legacy, rest, lp', ops, false⟩
+    | (none, rest, lp') => ⟨S, T, roots, legacy, rest, lp', ops, false⟩
     | (some out, rest, lp') =>
-      if panics ntx S (some out) then ⟨S, roots, legacy, rest, lp', opOf out :: ops, true⟩
-      else runX ntx c fuel lp' (applyOut S (some out)) (applyOutRoots S roots (some out))
+      if panics txsOf S T (some out) then ⟨S, T, roots, legacy, rest, lp', opOf out :: ops, true⟩
+      else runX txsOf c fuel lp' (applyOut S (some out)) (applyOutT txsOf S T (some out)) (applyOutRoots S roots (some out))
         (applyOutRoots S legacy (some out)) rest (opOf out :: ops)
 
-/-- without a panic the logged loop IS the proven loop `Import.runF` (for either root table) -/
-theorem runX_eq_runF (ntx : Nat → Nat) (c : Cfg) : ∀ (fuel : Nat) (lp : Option Nat) (S : List Block)
+/-- without a panic the logged loop IS the proven loop `Import.runF` (for either root table) and, on
+the transaction rows, the proven loop `Import.runT` -/
+theorem runX_eq_runF (txsOf : Nat → List Nat) (c : Cfg) : ∀ (fuel : Nat) (lp : Option Nat) (S : List Block) (T : List TxRow)
     (roots legacy : List (Nat × ρ)) (rs : List (Option Ev)) (ops : List String),
-    (runX ntx c fuel lp S roots legacy rs ops).panicked = false →
-    (runX ntx c fuel lp S roots legacy rs ops).S = (runF c fuel lp S roots rs).1 ∧
-    (runX ntx c fuel lp S roots legacy rs ops).roots = (runF c fuel lp S roots rs).2.1 ∧
-    (runX ntx c fuel lp S roots legacy rs ops).legacy = (runF c fuel lp S legacy rs).2.1 ∧
-    (runX ntx c fuel lp S roots legacy rs ops).rest = (runF c fuel lp S roots rs).2.2.1 ∧
-    (runX ntx c fuel lp S roots legacy rs ops).lp = (runF c fuel lp S roots rs).2.2.2 := by
+    (runX txsOf c fuel lp S T roots legacy rs ops).panicked = false →
+    (runX txsOf c fuel lp S T roots legacy rs ops).S = (runF c fuel lp S roots rs).1 ∧
+    (runX txsOf c fuel lp S T roots legacy rs ops).roots = (runF c fuel lp S roots rs).2.1 ∧
+    (runX txsOf c fuel lp S T roots legacy rs ops).legacy = (runF c fuel lp S legacy rs).2.1 ∧
+    (runX txsOf c fuel lp S T roots legacy rs ops).rest = (runF c fuel lp S roots rs).2.2.1 ∧
+    (runX txsOf c fuel lp S T roots legacy rs ops).lp = (runF c fuel lp S roots rs).2.2.2 ∧
+    (runX txsOf c fuel lp S T roots legacy rs ops).T = (runT txsOf c fuel lp S T rs).2.1 := by
   intro fuel
   induction fuel with
-  | zero => intro lp S roots legacy rs ops _; simp [runX, runF]
+  | zero => intro lp S T roots legacy rs ops _; simp [runX, runF, runT]
   | succ fuel ih =>
-    intro lp S roots legacy rs ops h
-    simp only [runX, runF] at h ⊢
+    intro lp S T roots legacy rs ops h
+    simp only [runX, runF, runT] at h ⊢
     cases hp : poll c lp [] rs with
     | mk out rest' =>
       cases rest' with
@@ -142,15 +152,17 @@ theorem runX_eq_runF (ntx : Nat → Nat) (c : Cfg) : ∀ (fuel : Nat) (lp : Opti
         | none => simp
         | some o =>
           simp only at h ⊢
-          by_cases hpan : panics ntx S (some o) = true
+          by_cases hpan : panics txsOf S T (some o) = true
           · rw [if_pos hpan] at h; simp at h
           · rw [if_neg hpan] at h ⊢
-            exact ih _ _ _ _ _ _ h
+            exact ih _ _ _ _ _ _ _ h
 
 /-! ## importer state over a history -/
 
 structure St (ρ : Type) where
   blocks : List Block
+  /-- the rows of `cardano_tx` -/
+  txs : List TxRow
   roots : List (Nat × ρ)
   legacy : List (Nat × ρ)
   /-- slot of `BlocksTransactionsImporter::last_polled_point` -/
@@ -171,38 +183,47 @@ structure StepOut (ρ : Type) where
   panicked : Bool
   cls : Char
 
-/-- one `CardanoChainDataImporter::import(target)` on the recorded reply script -/
-def importStep (ntx : Nat → Nat) (R RL : List Block → Option ρ) (maxPer : Nat) (st : St ρ) (target : Nat)
+/-- one `CardanoChainDataImporter::import(target)` on the recorded reply script; the range importers
+read the blocks joined with the transaction rows: `R T` / `RL T` is the root of a range for the table `T` -/
+def importStep (txsOf : Nat → List Nat) (R RL : List TxRow → List Block → Option ρ) (maxPer : Nat) (st : St ρ) (target : Nat)
     (rs : List (Option Ev)) : StepOut ρ :=
   let hs := highest st.blocks
   let early : Bool := match hs with
     | some b => decide (b.number ≥ target)
     | none => false
   if early then
-    let roots := rangesRun R st.blocks st.roots target
-    let legacy := rangesRun RL st.blocks st.legacy target
+    let roots := rangesRun (R st.txs) st.blocks st.roots target
+    let legacy := rangesRun (RL st.txs) st.blocks st.legacy target
     { st := { st with roots := roots, legacy := legacy }, from? := none, ops := [], left := rs.length, panicked := false, cls := 'e' }
   else
     let fromSlot : Option Nat := match st.lastPolled with
       | some s => some s
       | none => hs.map (·.slot)
     let c : Cfg := ⟨fromSlot.getD 0, target, maxPer⟩
-    let x := runX ntx c (rs.length + 1) none st.blocks st.roots st.legacy rs []
-    let pre : Option Char := if sortedB st.blocks then classB c none st.blocks rs else some 'p'
+    let x := runX txsOf c (rs.length + 1) none st.blocks st.txs st.roots st.legacy rs []
+    -- the hypotheses of the refinement theorems, decided: the store is a chain, the script is `Good`,
+    -- and no chain the node presents carries a transaction twice (`GoodTx`, reported as `x`)
+    let pre : Option Char :=
+      if sortedB st.blocks then
+        match classB c none st.blocks rs with
+        | some ch => some ch
+        | none => if goodTxB txsOf st.blocks rs then none else some 'x'
+      else some 'p'
     if x.panicked then
-      { st := { blocks := x.S, roots := x.roots, legacy := x.legacy, lastPolled := none }, from? := some fromSlot,
+      { st := { blocks := x.S, txs := x.T, roots := x.roots, legacy := x.legacy, lastPolled := none }, from? := some fromSlot,
         ops := x.ops.reverse, left := x.rest.length, panicked := true, cls := pre.getD 'g' }
     else
-      let roots := rangesRun R x.S x.roots target
-      let legacy := rangesRun RL x.S x.legacy target
+      let roots := rangesRun (R x.T) x.S x.roots target
+      let legacy := rangesRun (RL x.T) x.S x.legacy target
       let cls := match pre with
         | some ch => ch
         | none => if belowB x.S ((target + 1) / LEN) then 'g' else '3'
-      { st := { blocks := x.S, roots := roots, legacy := legacy,
+      { st := { blocks := x.S, txs := x.T, roots := roots, legacy := legacy,
                 lastPolled := match x.lp with | some s => some s | none => st.lastPolled },
         from? := some fromSlot, ops := x.ops.reverse, left := x.rest.length, panicked := false, cls := cls }
 
-/-- `prune_transaction(keep)`: blocks numbered below `min(highest new start, highest legacy start) - keep` go -/
+/-- `prune_transaction(keep)`: blocks numbered below `min(highest new start, highest legacy start) - keep` go,
+and their transaction rows with them (cascade) -/
 def prune (st : St ρ) (keep : Nat) : St ρ :=
   let hiNew := (st.roots.map (·.1)).max?
   let hiLeg := (st.legacy.map (·.1)).max?
@@ -213,7 +234,9 @@ def prune (st : St ρ) (keep : Nat) : St ρ :=
     | none, none => none
   match thr with
   | none => st
-  | some k => { st with blocks := st.blocks.filter (fun b => k * LEN - keep ≤ b.number) }
+  | some k =>
+    let blocks := st.blocks.filter (fun b => k * LEN - keep ≤ b.number)
+    { st with blocks := blocks, txs := cascade blocks st.txs }
 
 end Importer
 
